@@ -379,11 +379,22 @@ def cached_sequences(run: lib.Run) -> None:
             return Derived.check(self, decision, context)
     proj = lambda d: (d.allowed, d.effect, d.reason, d.challenge)  # noqa: E731
     s_, a_, r_, _c = real.make_request({"sid": "u", "roles": [], "sattrs": {}, "action": "read", "rtype": "doc", "rid": "1", "rattrs": {}, "ctx": {}})
-    for typ, attrs, good, bad in rows:
-        ob = {"type": typ} if attrs is None else {"type": typ, "attrs": attrs}
-        pol = {"algorithm": "permit-overrides", "rules": [{"id": "r", "effect": "permit", "actions": ["read"], "resource": {"type": "doc"}, "obligations": [ob]}]}
+    # a permit WITHOUT obligations (key absent / an empty list / only entries for the other effect) is still put to a custom checker:
+    # "a negative verdict of a custom checker … is honoured the same way" does not depend on what the rule carries
+    bare = [("<no obligations key>", "absent", {}, None), ("<empty obligations list>", "empty", {}, None), ("<only on:deny entries>", "other", {}, None)]
+    for typ, attrs, good, bad in rows + bare:
+        if bad is None:
+            rule = {"id": "r", "effect": "permit", "actions": ["read"], "resource": {"type": "doc"}}
+            if attrs == "empty":
+                rule["obligations"] = []
+            elif attrs == "other":
+                rule["obligations"] = [{"type": "require_mfa", "on": "deny"}]
+            pol = {"algorithm": "permit-overrides", "rules": [rule]}
+        else:
+            ob = {"type": typ} if attrs is None else {"type": typ, "attrs": attrs}
+            pol = {"algorithm": "permit-overrides", "rules": [{"id": "r", "effect": "permit", "actions": ["read"], "resource": {"type": "doc"}, "obligations": [ob]}]}
         # (b) mapping contexts alternating on one cached engine
-        for as_mapping in (False,):   # the request context is a `Context` (the documented API); a bare mapping is outside the quantifier
+        for as_mapping in ((False,) if bad is not None else ()):   # the request context is a `Context` (the documented API); a bare mapping is outside the quantifier
             for order in ((good, bad, good, bad), (bad, good, bad, good)):
                 g = Guard(copy.deepcopy(pol), cache=DefaultInMemoryCache())
                 for i, ctx in enumerate(order):
